@@ -57,12 +57,21 @@ def judge(cfg, obs):
     elif obs['status'] != 'ok':
         fails.append(('c14:no-termination', 'step budget exhausted (%s)' % obs['status']))
     wire = obs['wire']
-    # complete, non-interleaved exchanges
+    # complete, non-interleaved exchanges (IPMI request/reply or ASF ping/pong alike)
+    def norm(e):
+        if e[0] == 'tx':
+            return ('tx', e[1], e[7])
+        if e[0] == 'atx':
+            return ('tx', e[1], e[3])
+        if e[0] == 'rx':
+            return ('rx', e[1], e[5])
+        return ('rx', e[1], e[2])
+    nw = [norm(e) for e in wire]
     i = 0
-    while i < len(wire):
-        a = wire[i]
-        b = wire[i + 1] if i + 1 < len(wire) else None
-        if a[0] != 'tx' or b is None or b[0] != 'rx' or b[1] != a[1] or b[5] != a[7]:
+    while i < len(nw):
+        a = nw[i]
+        b = nw[i + 1] if i + 1 < len(nw) else None
+        if a[0] != 'tx' or b is None or b[0] != 'rx' or b[1] != a[1] or b[2] != a[2]:
             if not (obs['status'] != 'ok' and b is None and a[0] == 'tx'):
                 fails.append(('c14:interleaved-exchange',
                               'socket log is not a sequence of complete send/receive pairs of one thread at event %d: %s'
@@ -71,7 +80,7 @@ def judge(cfg, obs):
         i += 2
     # session sequence numbers strictly increasing in transmission order
     if cfg.get('active', True):
-        seqs = [e[3] for e in wire if e[0] == 'tx']
+        seqs = [e[3] for e in wire if e[0] == 'tx']     # IPMI datagrams only (ASF has none)
         prev = None
         for k, x in enumerate(seqs):
             bad = not (1 <= x <= WRAP)
@@ -83,10 +92,15 @@ def judge(cfg, obs):
                 break
             prev = x
     # own reply
-    sent = {}
+    sent, got = {}, {}
     for e in wire:
         if e[0] == 'tx':
             sent.setdefault((e[1], e[2]), []).append(e[7])
+        elif e[0] == 'atx':
+            sent.setdefault((e[1], e[2]), []).append(e[3])
+    for e, n in zip(wire, nw):
+        if n[0] == 'rx':
+            got.setdefault(e[1], []).append(n[2])
     done = False
     for t, spec in enumerate(cfg['threads']):
         outs = obs['results'][t]
@@ -99,6 +113,15 @@ def judge(cfg, obs):
                     done = True
                 continue
             kind, val = outs[j]
+            if kind == 'done':
+                # a keep-alive job that returns nothing (e.g. an ASF ping): judged on the wire -
+                # the datagram(s) it read must be the answers to the datagram(s) it sent
+                mine = sent.get((t, j), [])
+                if not mine or any(x not in got.get(t, []) for x in mine):
+                    fails.append(('c14:own-reply', 'thread %d (keep-alive job) iteration %d did not read the answer '
+                                  'to its own datagram(s) %s; it read %s' % (t, j, mine, got.get(t, []))))
+                    done = True
+                continue
             if kind != 'ok':
                 fails.append(('c14:exception:%s' % val, 'thread %d request %d raised %s' % (t, j, val)))
                 done = True
@@ -136,8 +159,12 @@ def term(cfg, obs):
     for e in obs['wire']:
         if e[0] == 'tx':
             wire.append(lN([0, e[1], e[2], e[3], e[4], e[5], e[6]]))
-        else:
+        elif e[0] == 'rx':
             wire.append(lN([1, e[1], e[2], e[3], e[4], e[5]]))
+        elif e[0] == 'atx':     # ASF traffic: not produced by the model -> the case mismatches
+            wire.append(lN([2, e[1], e[2], e[3]]))
+        else:
+            wire.append(lN([3, e[1], e[2]]))
     outs = []
     for t in range(len(cfg['threads'])):
         o = []
